@@ -229,6 +229,60 @@ def gen_literal_facts(tier, rng):
     return F
 
 
+def idle_rule(r, work):
+    """progress rule (vlib/idle.py) on the loops of the run-time parser: every cycle of strlen, scan_base's searches and
+    parse_string's chunk loops stores something or changes a loop-carried value (necessary for parse to return)"""
+    from vlib import idle
+    src = tc.PRELUDE["clang"] + ('extern "C" long long ip_i64(char const* s) { return cnl::_impl::parse<long long>(s); }\n'
+                                 'extern "C" void ip_i128(char const* s, cnl::int128_t* o) { *o = cnl::_impl::parse<cnl::int128_t>(s); }\n'
+                                 'extern "C" void ip_w(char const* s, cnl::wide_integer<200>* o) { *o = cnl::_impl::parse<cnl::wide_integer<200>>(s); }\n'
+                                 'extern "C" int ip_control(char const* s) { int n = 0; while (*s) { if (*s != 39) { ++n; ++s; } } return n; }\n')
+    p, raw, ssa = os.path.join(work, "ip.cpp"), os.path.join(work, "ip.raw.ll"), os.path.join(work, "ip.ll")
+    open(p, "w").write(src)
+    rc, so, se, cmd = tc.clang_ll(p, raw, "o0", extra=["-Xclang", "-disable-O0-optnone", "-DNDEBUG"])
+    if rc != 0:
+        raise tc.AnalysisBroken("parse TU does not compile: " + se[:1500])
+    rc, so, se, cmd = tc.opt_passes(raw, ssa, "function(sroa,mem2reg)")
+    if rc != 0:
+        raise tc.AnalysisBroken("opt failed on the parse unit: " + se[:800])
+    mod = ir.parse_module(open(ssa).read())
+    dem = tc.demangle(list(mod.functions))
+    pure, taken = idle.purity(mod)
+    try:
+        cyc, nl = idle.idle_cycles(mod, mod.functions["ip_control"], pure, taken)
+        if not cyc:
+            r.broke("idle-cycle control: the separator-skipping loop that forgets to advance was not reported")
+    except (KeyError, ValueError) as e:
+        r.broke("idle-cycle control failed: %r" % (e,))
+    edges = {}
+    for n, f in mod.functions.items():
+        edges[n] = set(m.group(1) for lab in f.order for l in f.blocks[lab] for m in re.finditer(r"(?:call|invoke)\s[^@]*@([\w.$]+)\(", l))
+    seen, st = set(), ["ip_i64", "ip_i128", "ip_w"]
+    while st:
+        x = st.pop()
+        for y in edges.get(x, ()):
+            if y not in seen and y in mod.functions:
+                seen.add(y)
+                st.append(y)
+    nfun, nloops = 0, 0
+    for x in sorted(seen):
+        d = dem.get(x, "")
+        if not re.search(r"cnl::_impl::(parse|parse_string|scan_|strlen)", d) and "parse_string" not in d:
+            continue
+        try:
+            cyc, nl = idle.idle_cycles(mod, mod.functions[x], pure, taken)
+        except ValueError as ex:
+            r.broke("idle-cycle rule: %s: %s" % (d[:120], ex))
+            continue
+        if nl:
+            nfun += 1
+            nloops += nl
+        for header, blocks in cyc:
+            r.violation("idle/" + d[:100], "%s: the loop at block %s has a cycle (%s) that stores nothing and changes no loop-carried value: once taken twice it is taken forever" % (d[:160], header, " -> ".join(blocks)),
+                        {"function": d, "cycle": blocks, "ir": mod.functions[x].text()})
+    return nfun, nloops
+
+
 def run(tier, seed, work):
     rng = random.Random(seed)
     r = report.Run(PROP, tier, seed, "other")
@@ -248,6 +302,8 @@ def run(tier, seed, work):
             # it suffices that num/den >= log2(B) (checked exactly on integers: B^den <= 2^num) and, for the truncating division, add >= den - 1 or num/den exact
             if B ** den > 2 ** num:
                 r.violation("bits/%d" % B, "bit-width estimate (%d*n + %d)/%d for base %d is below n*log2(%d): the deduced result type can be too narrow" % (num, add, den, B, B), {"row": row})
+    n_idle_fn, n_idle_loops = idle_rule(r, work)
+    common.floor_check(r, "parser loops inspected by the progress rule", n_idle_loops, 3)
     obs = gen_eq(rows)
     ctl = common.controls()
     kern.run_obligations(work, obs + ctl, batch=12)
@@ -273,7 +329,7 @@ def run(tier, seed, work):
         "explanation": "Literal types and constant reps for a stratified token sample (compile-time witnesses against exact rational arithmetic on the spelling). Table agreement inside the parser (per-digit scale == base, chunk factor == base^stride with the stride read from scan_base's own call sites, digit tables are correct and mutual negations, chunk fits the accumulator, bit estimate >= log2(base) per digit) and type-level deductions from values. That EVERY token or constant yields exactly its value is not decided: the scan/parse loops are not analysed, the literal witnesses cover the sampled spellings only.",
         "evaluations": len(rows) + len(obs) + len(F), "distinct_nontrivial": len(rows) + n["proved"] + nf["proved"],
         "rule": "non-trivial = extracted table row, proved table kernel, proved deduction fact",
-        "scan_rows": rows, "eq_kernels": len(obs), "eq_proved": n["proved"], "literal_facts": len(LF), "deduction_facts": len(F), "deduction_facts_proved": nf["proved"],
+        "scan_rows": rows, "eq_kernels": len(obs), "eq_proved": n["proved"], "parser_loops_with_progress": n_idle_loops, "literal_facts": len(LF), "deduction_facts": len(F), "deduction_facts_proved": nf["proved"],
         "samples": [{"key": o.key, "cnl": o.cnl, "ref": o.refs[0]} for o in obs[:5]], "exhaustive": False,
     }
     return r.finish()
